@@ -431,6 +431,16 @@ func runC24(c *Ctx) error {
 		nsteps := 4 + c.Intn(16)
 		baseH := 10 + c.Intn(3)
 		nearGenesis := c.Chance(1, 4) // whole history at heights 0..4: around the cleanup guard
+		// every eighth history starts with the cleanup guard's edge: entries at the genesis height, the newest entry at
+		// height 1 or 2, both cleanups, then the genesis entries are looked up (and set again)
+		type c24forced struct{ k, h int }
+		var forced []c24forced
+		if hi%8 == 0 {
+			top := 1 + c.Intn(2)
+			forced = []c24forced{{0, 0}, {10, 0}, {0, top}, {10, top}, {18, 0}, {19, 0}, {6, 0}, {14, 0}, {16, 0}, {0, 0}, {10, 0}}
+			nearGenesis = true
+			nsteps += len(forced)
+		}
 		for st := 0; st < nsteps; st++ {
 			h := baseH + c.Intn(7)
 			if c.Chance(1, 10) {
@@ -446,8 +456,13 @@ func runC24(c *Ctx) error {
 			if h == 0 {
 				r = 0 // the genesis point has round 0 only
 			}
+			k := c.Intn(20)
+			if len(forced) > 0 {
+				k, h, r = forced[0].k, forced[0].h, 0
+				forced = forced[1:]
+			}
 			point := base.NewPoint(base.Height(h), base.Round(uint64(r)))
-			switch k := c.Intn(20); {
+			switch {
 			case k < 6: // SetBallot
 				acc := c.Bool()
 				signer := nodes[c.Intn(len(nodes))]
